@@ -92,7 +92,7 @@ func scDupName(x *vs.Exec) {
 }
 
 // relogin: the client logs in again with its run id while the old session is live (and busy).
-// slowHook is an in-memory server plugin whose NewProxy hook takes 10 s (virtual) for the proxy named "...m":
+// slowHook is an in-memory server plugin whose NewProxy hook takes 45 s (virtual; longer than every read / connection timeout of the server) for the proxy named "...m":
 // the old session is then still busy handling a message while the re-login arrives.
 type slowHook struct{}
 
@@ -100,7 +100,7 @@ func (slowHook) Name() string             { return "slow" }
 func (slowHook) IsSupport(op string) bool { return op == plugin.OpNewProxy }
 func (slowHook) Handle(_ context.Context, _ string, content any) (*plugin.Response, any, error) {
 	if c, ok := content.(plugin.NewProxyContent); ok && strings.HasSuffix(c.ProxyName, "m") {
-		time.Sleep(10 * time.Second)
+		time.Sleep(45 * time.Second)
 	}
 	return &plugin.Response{Unchange: true}, nil, nil
 }
